@@ -56,6 +56,8 @@ pub enum St {
     Troff,
     /// INPUT [,]["prompt";] vars  (prompt, leading comma = caps off, numeric variables)
     Input(Option<String>, bool, Vec<String>),
+    /// K$=INKEY$ (the driver answers with no key)
+    Inkey,
     /// raw command text with `{}` placeholders for line-number operands (never executed by the model)
     Cmd(&'static str, Vec<usize>),
 }
@@ -268,6 +270,10 @@ impl<'a> G<'a> {
                 };
                 let at = self.rng.usize(v.len() + 1);
                 v.insert(at, St::Input(prompt, self.rng.chance(1, 4), vars));
+            }
+            9 if self.o.input && self.rng.chance(1, 2) => {
+                let at = self.rng.usize(v.len() + 1);
+                v.insert(at, St::Inkey);
             }
             _ => {}
         }
@@ -655,7 +661,8 @@ impl<'a> Render<'a> {
             }
             E::Q(n) => {
                 let t = format!("{}", (*n as f64 / 4.0).abs());
-                let t = if self.ch(2) == 1 { t.trim_start_matches('0').to_string() } else { t };
+                // `.5` or `0.5`: a property of the literal, not of the spelling (listings keep literals as typed)
+                let t = if n.rem_euclid(3) == 1 { t.trim_start_matches('0').to_string() } else { t };
                 let t = if t.is_empty() || t == "." { "0".to_string() } else { t };
                 if *n < 0 {
                     format!("(-{})", t)
@@ -869,6 +876,7 @@ impl<'a> Render<'a> {
                 o.push_str(&names.join(","));
                 o
             }
+            St::Inkey => format!("{}={}", self.w("K$"), self.w("INKEY$")),
             St::Cmd(f, ls) => {
                 let mut o = String::new();
                 let mut it = ls.iter();
@@ -1414,6 +1422,10 @@ impl<'a> M<'a> {
                     self.kinds.insert("INPUT-redo");
                     self.out.push_str("?REDO FROM START\n");
                 }
+            }
+            St::Inkey => {
+                self.kinds.insert("INKEY$");
+                self.out.push_str("<INKEY>");
             }
             St::Cmd(..) => return Err(End::Unspec("command")),
         }
